@@ -490,6 +490,7 @@ pub fn frag_image(seed: u64) -> (Vec<u8>, usize) {
         start_pos: 0,
         io: IoKnobs::plain(),
         preexisting: 0,
+        fault: None,
     };
     let base = mux_bytes(&sc);
     let nodes = walk(&base);
@@ -1270,6 +1271,7 @@ pub fn length_chain_image(seed: u64) -> Vec<u8> {
         start_pos: 0,
         io: IoKnobs::plain(),
         preexisting: 0,
+        fault: None,
     };
     let base = mux_bytes(&sc);
     let nodes = walk(&base);
